@@ -1603,6 +1603,11 @@ var binops = map[string]binOpFunc{
 	"+>":      rel.NewAddArrowExpr,
 }
 
+// not negates the outcome of a comparison, passing any error through.
+func not(result bool, err error) (bool, error) {
+	return !result, err
+}
+
 var compareOps = map[string]rel.CompareFunc{
 	"<:": func(a, b rel.Value) (bool, error) {
 		set, is := b.(rel.Set)
@@ -1625,17 +1630,17 @@ var compareOps = map[string]rel.CompareFunc{
 	"<=": func(a, b rel.Value) (bool, error) { return !b.Less(a), nil },
 	">=": func(a, b rel.Value) (bool, error) { return !a.Less(b), nil },
 
-	"(<)":   func(a, b rel.Value) (bool, error) { return subset(a, b), nil },
-	"(>)":   func(a, b rel.Value) (bool, error) { return subset(b, a), nil },
-	"(<=)":  func(a, b rel.Value) (bool, error) { return subsetOrEqual(a, b), nil },
-	"(>=)":  func(a, b rel.Value) (bool, error) { return subsetOrEqual(b, a), nil },
-	"(<>)":  func(a, b rel.Value) (bool, error) { return subsetOrSuperset(a, b), nil },
-	"(<>=)": func(a, b rel.Value) (bool, error) { return subsetSupersetOrEqual(b, a), nil },
+	"(<)":   func(a, b rel.Value) (bool, error) { return subset(a, b) },
+	"(>)":   func(a, b rel.Value) (bool, error) { return subset(b, a) },
+	"(<=)":  func(a, b rel.Value) (bool, error) { return subsetOrEqual(a, b) },
+	"(>=)":  func(a, b rel.Value) (bool, error) { return subsetOrEqual(b, a) },
+	"(<>)":  func(a, b rel.Value) (bool, error) { return subsetOrSuperset(a, b) },
+	"(<>=)": func(a, b rel.Value) (bool, error) { return subsetSupersetOrEqual(b, a) },
 
-	"!(<)":   func(a, b rel.Value) (bool, error) { return !subset(a, b), nil },
-	"!(>)":   func(a, b rel.Value) (bool, error) { return !subset(b, a), nil },
-	"!(<=)":  func(a, b rel.Value) (bool, error) { return !subsetOrEqual(a, b), nil },
-	"!(>=)":  func(a, b rel.Value) (bool, error) { return !subsetOrEqual(b, a), nil },
-	"!(<>)":  func(a, b rel.Value) (bool, error) { return !subsetOrSuperset(a, b), nil },
-	"!(<>=)": func(a, b rel.Value) (bool, error) { return !subsetSupersetOrEqual(b, a), nil },
+	"!(<)":   func(a, b rel.Value) (bool, error) { return not(subset(a, b)) },
+	"!(>)":   func(a, b rel.Value) (bool, error) { return not(subset(b, a)) },
+	"!(<=)":  func(a, b rel.Value) (bool, error) { return not(subsetOrEqual(a, b)) },
+	"!(>=)":  func(a, b rel.Value) (bool, error) { return not(subsetOrEqual(b, a)) },
+	"!(<>)":  func(a, b rel.Value) (bool, error) { return not(subsetOrSuperset(a, b)) },
+	"!(<>=)": func(a, b rel.Value) (bool, error) { return not(subsetSupersetOrEqual(b, a)) },
 }
